@@ -352,6 +352,17 @@ func (u *UnitGen) frameObligations(entry, final *State, env *Env) {
 			}
 		}
 		same := Eq(Select(fin, r), Select(ini, r))
+		if pfx == "MV:" {
+			// map values matter only at keys present in the final domain
+			dk := "MD:" + k[3:]
+			if dfin, ok := final.vars[dk]; ok || true {
+				if !ok {
+					dfin = u.get(final, dk, ArraySort(SInt, ArraySort(keySort(elemSort(so)), SBool)))
+				}
+				kk := u.havoc("fr_mk", keySort(elemSort(so)))
+				same = Implies(Select(Select(dfin, r), kk), Eq(Select(Select(fin, r), kk), Select(Select(ini, r), kk)))
+			}
+		}
 		body := same
 		for _, pr := range partialRefs {
 			inner := elemSort(so)
